@@ -274,14 +274,6 @@ func (e *editor) expr(pe **model.Expr) {
 			*pe = x.R
 			return
 		}
-		if e.hit() {
-			if x.Op == model.OAnd {
-				x.Op = model.OOr
-			} else {
-				x.Op = model.OAnd
-			}
-			return
-		}
 		e.expr(&x.L)
 		e.expr(&x.R)
 	}
